@@ -275,6 +275,9 @@ func (f *file) writeBlobAt(op string, p blob.Blob, off int64) (n int, err error)
 	if off < 0 {
 		return 0, &hackpadfs.PathError{Op: op, Path: f.path, Err: errors.New("negative offset")}
 	}
+	if p.Len() == 0 {
+		return 0, nil // an empty write never extends the file, even beyond the end
+	}
 
 	endIndex := off + int64(p.Len())
 	if int64(f.Size()) < endIndex {
